@@ -25,4 +25,6 @@ EXTRAS = [
     lambda rep, fb, tier: __import__("vf.rules.forward", fromlist=["x"]).rule_same_name(rep, fb, select=lambda f: f["name"] in ("sort_next", "argsort_next", "sort", "argsort", "sort_asstrings"), floor=30, name="FORWARD.same-name:sort"),
     lambda rep, fb, tier: __import__("vf.rules.lints", fromlist=["x"]).rule_strict_comparator(rep, fb),
     lambda rep, fb, tier: __import__("vf.rules.lints", fromlist=["x"]).rule_string_equality(rep, fb),
+    lambda rep, fb, tier: __import__("vf.rules.lints", fromlist=["x"]).rule_ctor_roles(rep, fb),
+    lambda rep, fb, tier: __import__("vf.rules.lints", fromlist=["x"]).rule_call_roles(rep, fb),
 ]
